@@ -727,6 +727,7 @@ class Mailbox:
         #
         self.executing_tasks = []
         while True:
+            imap_cmd: IMAPClientCommand | None = None
             try:
                 # Block until we have an IMAP Command that wants to run on this
                 # mailbox.
@@ -821,6 +822,13 @@ class Mailbox:
                     self.name,
                     e,
                 )
+                # If we failed while preparing a command to run (eg: its
+                # message set is not valid for this mailbox) hand the error
+                # to that command instead of leaving it blocked forever.
+                #
+                if imap_cmd is not None and not imap_cmd.ready.is_set():
+                    imap_cmd.error = e
+                    imap_cmd.ready.set()
 
     ####################################################################
     #
